@@ -15,7 +15,7 @@ MANIFEST = {
             'come from sparse dicts); products/quotients are enumerated as non-zero up to IEEE underflow; the public mutators of SparseVector reach no write '
             'without passing the read_only test; binary kernels never write an operand and return a vector whose dict is fresh; every kernel name a dispatcher '
             "template can form resolves to a definition; every size dispatch ends in raise ValueError. Item assignment must compare the caller's index with the "
-            'size before using it as a storage key (two known findings: it does not). Equality with NumPy results for all values is not decided.',
+            'size before using it as a storage key (two known findings: it does not). No in-place kernel may store into the size of its target (NumPy never resizes the output operand; 20 kernels do, a known finding pinned by a test). Equality with NumPy results for all values is not decided.',
 }
 
 SP = 'thermosteam/base/sparse.py'
@@ -26,6 +26,31 @@ NZ_EXCEPTIONS = {
     ('sum_sparse_vectors', r'^sum\(\[1\.0 for (\w+) in \w+ if \w+ in \1\]\)$'):
         'the key ranges over the union of the sets, so at least one set contains it and the count is >= 1',
 }
+
+
+def inplace_keeps_size(ctx, d7, classes):
+    """NumPy rejects  a op= b  when the broadcast result is larger than a (the output operand is never resized): a length-1
+    TARGET is not broadcast, only a length-1 operand is.  So no in-place kernel (_i<op>_sparse/_array/_scalar, hand-written or
+    generated) may store into self.size; with such a store the size dispatch accepts a shape mismatch and grows the target."""
+    n = 0
+    for c in classes:
+        for name, f in sorted(c.methods.items()):
+            if f.cls is not c or not re.match(r'^_i[a-z]+_(sparse|scalar|array)$', name):
+                continue
+            n += 1
+            selfn = f.params[0] if f.params else 'self'
+            hits = [x for x in walk_no_nested(f.node) if isinstance(x, ast.Attribute) and isinstance(x.ctx, ast.Store) and x.attr in ('size', '_size', 'shape')
+                    and isinstance(x.value, ast.Name) and x.value.id == selfn]
+            cons = '%s.%s' % (c.name, name)
+            if hits:
+                st = hits[0]
+                while getattr(st, '_parent', None) is not None and not isinstance(st, ast.stmt):
+                    st = st._parent
+                d7.fail(cons, 'resizes-target', 'the in-place kernel re-sizes its target (%s): a length-1 target combined with a longer operand grows instead of being '
+                        'rejected as a shape mismatch' % src(st), f, st)
+            else:
+                d7.ok(cons, 'no store into the size of the target', f)
+    return n
 
 
 def nz_exception(qual, expr):
@@ -45,6 +70,8 @@ def run(ctx):
         'D3 binary kernels do not write operands and return fresh storage; in-place kernels write only self',
         'D4 every kernel name formed by the dispatcher templates resolves to a definition',
         'D5 every size dispatch of a _sparse/_array kernel ends in raise ValueError',
+        'D7 no in-place kernel stores into the size of its target (NumPy never resizes the output operand of an in-place operation; a length-1 target is not '
+        'broadcast against a longer operand, it is a shape mismatch)',
     ]
     ctx.not_decided = ['equality of results with NumPy for all operand values', 'index-in-range', 'broadcasting results']
     d1 = ctx.rule('D1', 'no stored zero (D-nz)', floor=150)
@@ -150,6 +177,8 @@ def run(ctx):
     # ---------------- D3b: no value-returning function builds its result on the storage of an existing vector
     d6 = ctx.rule('D6', 'keys written by item assignment are range-checked against the size', floor=2)
     index_range(ctx, d6)
+    d7 = ctx.rule('D7', 'an in-place kernel never changes the size of its target', floor=30)
+    inplace_keeps_size(ctx, d7, classes)
     d3b = ctx.rule('D3b', 'results are never built on an operand\'s storage (from_dict / returned dicts)', floor=60)
     allf = []
     for c in classes:
